@@ -9539,6 +9539,18 @@ func (c *Checker) checkUsingConstantLookupEntryNodeForNamespace(node ast.Complex
 		newConstantSymbol = value.ToSymbol(asName)
 	}
 	usingNamespace := c.getUsingBufferNamespace()
+	if constant != nil && container != nil {
+		if _, isType := container.Subtype(originalConstantSymbol); !isType {
+			// a constant that has already been defined and holds a value, not a type or a namespace
+			// (eg. defined by a header or by a previous input in the REPL)
+			switch constant.(type) {
+			case *types.ConstantPlaceholder, *types.NamespacePlaceholder:
+			default:
+				usingNamespace.DefineConstantWithFullName(newConstantSymbol, fullConstantName, constant)
+				return node
+			}
+		}
+	}
 	switch n := constant.(type) {
 	case *types.SingletonClass:
 		usingNamespace.DefineSubtypeWithFullName(newConstantSymbol, fullConstantName, n.AttachedObject)
